@@ -35,7 +35,10 @@ RULE_ADDED = (
               'is locked in the bootloader). '
               ' '
               'Round 11: second faults also at the very first exchange of the repair (known fin'
-              'ding). ')
+              'ding). '
+              ' '
+              'Round 14: quiet periods (121 s .. a day on the clock the middleware reads) betwe'
+              'en the bring-up and the link failure; header-cut-short shapes. ')
 RULE = RULE + " " + RULE_ADDED.strip()
 ASSUMPTIONS = [
     "fault kinds are those of the HID transport (write() < 0, read error, time-out) as the "
